@@ -736,7 +736,8 @@ def comprehension(ex, st, node):
             return st.alloc(PyList(out), 'list')
         # symbolic comprehension: evaluate the element at a symbolic index
         k = z3.Int(uid('c'))
-        st.pc.append(z3.And(k >= 0, k < dom.n))
+        idx_assump = z3.And(k >= 0, k < dom.n)
+        st.pc.append(idx_assump)
         try:
             ex.assign(gen.target, dom.bind(k), st)
             e = ex.eval(node.elt, st)
@@ -746,8 +747,7 @@ def comprehension(ex, st, node):
         de = ex.deref(st, e)
         # remove the index assumption again (axioms introduced stay: they are
         # definitional and guarded by fresh symbols)
-        idx_assump = z3.And(k >= 0, k < dom.n)
-        st.pc = [f for f in st.pc if not f.eq(idx_assump)]
+        st.pc = [f for f in st.pc if f is not idx_assump]
         if isinstance(de, (Sym, int, float, bool)):
             kk = kind_of(de)
             t = zv(de, kk)
